@@ -4,6 +4,7 @@ from engine.rulekit import hir as Hh
 from engine.rulekit import mir as M
 from engine.rulekit import scans
 from rules import c12 as C12
+from rules import anchors as A
 
 PARSE = "roxmltree::parse::<impl roxmltree::Document<'input>>::parse"
 
@@ -254,6 +255,7 @@ def run(ck, F):
             ck.violation("R4", f"registration#{'add' if is_add else 'new'}", B.term(bb).get("sp"),
                          f"a file is not registered as (file_name(), read_to_string(path)) of one path (key ok: {key_ok}, content ok: {xml_ok})", fn=ub["path"])
     rule_all_siblings_visited(ck, F, ub)
+    rule_every_import_followed(ck, F)
     # content of a sibling flows only into Files::add / Files::new
     for bb, t in B.calls_to("fs::read_to_string"):
         flows = M.result_flow(B, bb, t)
@@ -313,6 +315,91 @@ def rule_all_siblings_visited(ck, F, ub, rule="R4"):
     if n_walks and not any(o["status"] == "violated" and ("|siblings:" in o["key"] or "|sibling-kind:" in o["key"]) for o in ck.obligations):
         ck.ok(rule, "siblings:all-visited", ub["span"], "the walk over the directory visits every entry and asks the path what it is")
     ck.floor(rule, "walks over read_dir", n_walks, 1)
+
+
+def import_processors(F):
+    """the functions that follow one `import` element: fn(Node, &Files) -> Result<RustDocument, _>"""
+    out = []
+    for f in A._fn_items(F):
+        ins = [A._norm_ty(x) for x in f["inputs"]]
+        if len(ins) == 2 and ins[0].startswith("roxmltree::Node<") and ins[1] == "&reader::Files" and "model::doc::RustDocument" in A._norm_ty(f["output"]):
+            out.append(f["path"])
+    return sorted(out)
+
+
+def rule_every_import_followed(ck, F, rule="R1"):
+    """Every `import` child of a schema is followed, wherever it stands among the children: the loop that hands a child to the
+    import processor ranges over all children of the schema (no adaptor that ends the walk early, no `while let .. next_if`, no
+    exit other than the returned error)."""
+    from rules import c02 as C02
+    procs = set(import_processors(F))
+    if not procs:
+        ck.undecided(rule, "imports:processor", "-", "the function that follows an import (Node, &Files) -> RustDocument was not found")
+        return
+    n = 0
+    for b in F.lib.bodies:
+        if b.get("hir") is None or b.get("closure") or "tests::" in b["path"] or b["path"] in procs:
+            continue
+        nb = Hh.norm_body(b)
+        short = b["path"].rsplit("::", 1)[-1]
+
+        def visit(e, loops):
+            if isinstance(e, list):
+                for x in e:
+                    visit(x, loops)
+                return
+            if not isinstance(e, dict):
+                return
+            k = e.get("k")
+            if k in ("Call", "MethodCall") and (Hh.callee_path(e) or "") in procs:
+                judge(e, loops)
+            if k in ("For", "Loop"):
+                loops = loops + [e]
+            elif k == "MethodCall" and e.get("name") in ("for_each", "try_for_each", "map", "filter_map", "flat_map", "fold", "try_fold", "find_map", "any", "all"):
+                loops = loops + [e]
+            for key, v in e.items():
+                if isinstance(v, (dict, list)):
+                    visit(v, loops)
+
+        def judge(call, loops):
+            nonlocal n
+            n += 1
+            site = Hh.sp(call)
+            if not loops:
+                # handed the import by a caller: judged where the caller loops
+                n -= 1
+                return
+            lp = loops[-1]
+            if lp.get("k") == "For":
+                src = C02._iter_source(nb, lp)
+                exits = []
+                C02._find_exits(lp["body"], exits, in_closure=False)
+                bad = [a for a in TRUNCATING if f".{a}(" in src]
+                if "children(" not in src and "descendants(" not in src:
+                    ck.undecided(rule, f"imports:source:{short}", site, f"{short}: what the loop around the import processor ranges over was not recognised: {src[:100]}")
+                elif bad or exits:
+                    why = f"passes through `{bad[0]}`" if bad else f"is left with `{exits[0][0]}`"
+                    ck.violation(rule, f"imports:all-children:{short}", site,
+                                 f"{short}: the walk over the schema's children that follows the imports {why}: an `import` that stands behind the point "
+                                 f"where it ends (after an include, a redefine, a component) is not followed and the file it names is never read", fn=short)
+                else:
+                    ck.ok(rule, f"imports:all-children:{short}", site, f"{short}: the imports are followed from a walk over all children of the schema", fn=short)
+            elif lp.get("k") == "Loop":
+                ck.violation(rule, f"imports:all-children:{short}", site,
+                             f"{short}: the imports are followed from a hand-written loop (`while let` / `loop`) that takes children off an iterator as long as "
+                             f"a condition holds: an `import` behind the first child that does not meet it is not followed and its file never read", fn=short)
+            else:
+                src = Hh.describe(lp["recv"])
+                bad = [a for a in TRUNCATING if f".{a}(" in src] + ([lp["name"]] if lp["name"] in ("find_map", "any", "all") else [])
+                if bad:
+                    ck.violation(rule, f"imports:all-children:{short}", site,
+                                 f"{short}: the children handed to the import processor pass through `{bad[0]}`, which can end the walk early: an `import` behind "
+                                 f"that point is not followed", fn=short)
+                else:
+                    ck.ok(rule, f"imports:all-children:{short}", site, f"{short}: the imports are followed from a walk over all children of the schema", fn=short)
+
+        visit(nb["value"], [])
+    ck.floor(rule, "calls of the import processor judged", n, 1)
 
 
 def _root_is_files(B, o):
